@@ -511,5 +511,68 @@ func genPageProbe(r *rand.Rand, d *dataset, i int) *querySpec {
 	return q
 }
 
+// genFillProbe: an aggregate per time bucket with null filling (the default, or spelled out)
+// whose range is cut so that it holds few buckets and among them zero, one or two empty
+// ones, with bounds on and off bucket edges: the executor hands chunks of complete bucket
+// sequences through unchanged and fills the others, so the interesting ranges are those where
+// the first chunk is one bucket short of the range, or exactly one bucket longer than a chunk.
+func genFillProbe(r *rand.Rand, d *dataset, i int) *querySpec {
+	q := &querySpec{Mst: d.U.Msts[i%len(d.U.Msts)], Agg: true}
+	q.Func = []string{"count", "sum", "max", "mean", "last", "min"}[i%6]
+	q.Field = []string{"fi", "ff"}[(i/2)%2]
+	q.Interval = []int64{1 * sec, 2 * sec, 5 * sec, 1 * sec, 10 * sec, 1500_000_000}[(i/3)%6]
+	if i%2 == 0 {
+		q.Fill = "null"
+	}
+	switch (i / 4) % 5 {
+	case 3:
+		q.GroupTags = []string{"region"}
+	case 4:
+		q.Where = &pred{Op: "tag", Key: "region", Cmp: "=", Val: []string{"x", "y"}[r.IntN(2)]}
+	}
+	// buckets that hold a timestamp of the data set
+	has := map[int64]bool{}
+	for _, t := range d.Times {
+		has[t-mod64(t, q.Interval)] = true
+	}
+	start := d.Times[r.IntN(len(d.Times))]
+	b0 := start - mod64(start, q.Interval)
+	wantEmpty := i % 3
+	maxBuckets := 2 + r.IntN(12)
+	empty, n := 0, 0
+	end := b0
+	for b := b0; n < maxBuckets && b <= d.THi; b += q.Interval {
+		if !has[b] {
+			if empty == wantEmpty {
+				break
+			}
+			empty++
+		}
+		end = b
+		n++
+	}
+	// the range ends in a bucket with data (a trailing empty bucket is still a bucket of the range)
+	lo, hi := b0, end+q.Interval-1
+	switch r.IntN(4) {
+	case 0:
+		lo = start // off the bucket edge
+	case 1:
+		hi = end // first instant of the last bucket
+	case 2:
+		hi = end + q.Interval // one bucket more, holding its first instant only
+	}
+	q.Lo = &bound{lo, true}
+	q.Hi = &bound{hi, true}
+	return q
+}
+
+func mod64(a, b int64) int64 {
+	m := a % b
+	if m < 0 {
+		m += b
+	}
+	return m
+}
+
 // probeInner: the inner chunk sizes a tie probe is run with, cell by cell.
 var probeInner = []int{1, 2, 1024, 2, 1, 1024, 1, 2}
